@@ -291,7 +291,9 @@ def report_rejections(chk, name, rejected, prefix=""):
     for case, ev, evs, at in sorted(rejected, key=lambda x: len(x[1].get("l") or [])):
         op = ev.get("op", "Reset")
         key = "%s%s" % (prefix, op)           # structural: what fails, not which campaign produced it
-        if case.kind == "reader":
+        if op == "Reset":
+            key = prefix + "literal-table-differs"
+        elif case.kind == "reader":
             l = ev.get("l") or []
             if op in ("ReadEsc", "ReadRaw"):
                 key += ":native-reader" if ev["a"][1] == 0 else ":scheme-read"
@@ -390,6 +392,11 @@ def sweep(chk, build, sc, planes):
                 nbad += 1
                 rec = {f: blk[f][cp - frm] for f in ("b1", "b2", "b3", "d1", "d2", "len")}
                 key = "sweep:%d-byte" % width(cp)
+                with LOCK:
+                    bykey = chk.cov.setdefault("rejections_by_key", {})
+                    bykey[key] = bykey.get(key, 0) + 1
+                    if bykey[key] > 3:
+                        continue
                 chk.report(key, "U+%04X does not survive char->string->utf8->string->char: %s" % (cp, json.dumps(rec)),
                            "sweep_U+%04X.json" % cp, {"key": key, "cp": cp, "logged": rec})
         total += n - nbad
